@@ -126,6 +126,9 @@ class RoutineVisitor(ExplorerScriptVisitor):
     def _enlarge_routine_info(self) -> None:
         if self._active_routine_id < 0:
             raise SsbCompilerError(_("Routine ids must not be negative."))
+        if self._active_routine_id > 0xFFFF:
+            # The number of routines of a script is a 16 bit value (and every id up to this one gets an entry).
+            raise SsbCompilerError(_("Routine ids must not be larger than 65535."))
         if len(self.routine_infos) - 1 < self._active_routine_id:
             needed = self._active_routine_id - len(self.routine_infos) + 1
             for i in range(0, needed):
